@@ -380,7 +380,8 @@ func playVariant(data []byte, expAll [][]expectEv, ns []int, pat string, withMet
 		tr = tr.Only(midi.ControlChangeMsg)
 	}
 	if both {
-		tr = tr.Only(midi.ControlChangeMsg, midi.ProgramChangeMsg)
+		// (meta types in the list do not make meta events playable)
+		tr = tr.Only(midi.ControlChangeMsg, midi.ProgramChangeMsg, smf.MetaTextMsg, smf.MetaTrackNameMsg, smf.MetaUndefinedMsg, smf.MetaTempoMsg)
 	}
 	if clearedFilter {
 		tr = tr.Only(midi.ControlChangeMsg).Only()
